@@ -164,7 +164,7 @@ def fam_limits(rnd, tier):
     for proto in ["http", "grpc", "grpcweb", "grpcwebtext"]:
         for codec in ["proto", "json"]:
             for comp in ["", "gzip"]:
-                for L in ([30, 64, 1000] if tier == "quick" else [24, 30, 64, 200, 1000, 5000]):
+                for L in ([30, 64, 1000] if tier == "quick" else [24, 30, 31, 32, 33, 63, 64, 65, 127, 128, 129, 200, 255, 256, 257, 1000, 4096, 5000, 16383, 16384, 16385, 70000]):
                     if comp == "gzip" and L < 200:
                         continue    # a gzip frame of a tiny message is larger than the message: limits below the gzip overhead say nothing
                     for size in [L - 1, L, L + 1, 50 * L]:
@@ -200,7 +200,7 @@ def fam_limits(rnd, tier):
                     c["script"] = recv_all(c) + ([act("send", size=1)] if shape != "unary" else []) + [act("ret", code=0)]
                     out.append(c)
     rnd.shuffle(out)
-    return out[: (4000 if tier == "quick" else 60000)]
+    return out[: (4000 if tier == "quick" else 400000)]
 
 
 def fam_ws(rnd, tier, part):
@@ -268,7 +268,7 @@ def fam_md(rnd, tier):
     for proto in ["http", "grpc", "grpcweb", "grpcwebtext"]:
         for shape in ["unary", "bidi", "sstream"]:
             for fail in (0, 5):
-                for k in range(10 if tier == "quick" else 80):
+                for k in range(10 if tier == "quick" else 400):
                     c = base(proto, shape, codec=rnd.choice(["proto", "json"]), tag="md")
                     reqmd, want = {}, {}
                     for (name, key) in rnd.sample(names, rnd.randint(1, 3)):
@@ -348,11 +348,11 @@ def fam_opts(scripts, rnd, tier):
                         sc.append(act("ret", code=0) if outcome == "ok" else act("ret", code=9, msg=["plain"]))
                     c["script"] = sc
                     pool.append(c)
-    for s in scripts[:300]:
+    for s in (scripts[:300] if tier == "quick" else scripts):
         if s["proto"] in ("http", "grpc", "grpcweb") and not (s["shape"] in ("unary", "sstream") and len(s["sizes"]) != 1):
             pool.append(base(s["proto"], s["shape"], sizes=s["sizes"], script=s["script"], tag="opts"))
     rnd.shuffle(pool)
-    pool = pool[: (250 if tier == "quick" else 3000)]
+    pool = pool[: (250 if tier == "quick" else 20000)]
     for g, c in enumerate(pool):
         for sub in subsets:
             d = json.loads(json.dumps(c))
